@@ -868,7 +868,7 @@ def gen_privkey(rng):
     return {"family": "privkey", "k": k, "n": rng.randrange(k, 7), "servers": rng.randrange(2, 8), "fmt": rng.choice("sm"),
             "sched": rng.randrange(1 << 30), "policy": rng.choice(["fifo", "random", "lifo"]), "which": rng.randrange(64),
             "off": rng.randrange(8, 1200), "order": rng.choice([["check", "car"], ["car", "check"], ["car"], ["check"]]),
-            "size": rng.choice([30, 100, 3000])}
+            "size": rng.choice([30, 100, 3000]), "field": rng.choice(["privkey", "privkey", "vkey"])}
 
 
 def run_privkey_scenario(ctx, sc):
@@ -890,12 +890,23 @@ def run_privkey_scenario(ctx, sc):
                 files = g.share_files(node.get_storage_index())
                 (i, sh, path) = files[sc["which"] % len(files)]
                 base = MutableShareFile(path).DATA_OFFSET
-                if sc["fmt"] == "m":
-                    start = 123                      # MDMF: enc_privkey follows the 123-byte header
+                field = sc.get("field", "privkey")
+                hdr = MutableShareFile(path).readv([(0, 200)])[0]
+                if field == "vkey":
+                    # the verification (public) key: SDMF [107, offsets.signature), MDMF [verification_key, .._end)
+                    if sc["fmt"] == "m":
+                        f_ = struct.unpack(">BQ32sBBQQ QQQQQQQQ", hdr[:123])
+                        start, length = f_[10], f_[11] - f_[10]
+                    else:
+                        start, length = 107, struct.unpack(">L", hdr[75:79])[0] - 107
+                    off = start + sc["off"] % max(1, length)
+                elif sc["fmt"] == "m":
+                    off = 123 + sc["off"]            # MDMF: enc_privkey follows the 123-byte header
                 else:
-                    start = data_region(path)[2]     # SDMF: offset of enc_privkey from the share's offset table
-                if not flip(path, base + start + sc["off"]):
+                    off = data_region(path)[2] + sc["off"]   # SDMF: enc_privkey offset from the share's offset table
+                if not flip(path, base + off):
                     return
+                verdicts = {}
                 for step in sc["order"]:
                     try:
                         if step == "check":
@@ -907,13 +918,20 @@ def run_privkey_scenario(ctx, sc):
                     except Exception as e:
                         ctx.count("privkey-%s-error:%s" % (step, mc.exc_name(e)))
                         break
-                    ctx.case(("privkey", sc["fmt"], step, cr.is_healthy(), sc["k"], sc["n"]))
-                    ctx.count("privkey-%s-%s-healthy:%s" % (sc["fmt"], step, cr.is_healthy()))
-                    if cr.is_healthy():
-                        ctx.violation("%s(verify=True) says healthy (%d good shares) although the encrypted private key of share "
-                                      "%d on server %d is damaged" % ("check" if step == "check" else "check_and_repair",
-                                                                      cr.get_share_counter_good(), sh, i), case,
-                                      "verify-misses-corrupt-encprivkey")
+                    ctx.case((field, sc["fmt"], step, cr.is_healthy(), sc["k"], sc["n"]))
+                    ctx.count("%s-%s-%s-healthy:%s" % (field, sc["fmt"], step, cr.is_healthy()))
+                    verdicts[step] = (cr.is_healthy(), cr.get_share_counter_good())
+                    flagged = any(loc[2] == sh for loc in cr.get_corrupt_shares())
+                    if cr.is_healthy() or not flagged:
+                        ctx.violation("%s(verify=True) says healthy=%s, %d good shares, corrupt shares %r although the %s of share "
+                                      "%d on server %d is damaged" % (
+                                          "check" if step == "check" else "check_and_repair", cr.is_healthy(),
+                                          cr.get_share_counter_good(), sorted(loc[2] for loc in cr.get_corrupt_shares()),
+                                          "encrypted private key" if field == "privkey" else "verification key", sh, i), case,
+                                      "verify-misses-corrupt-" + ("encprivkey" if field == "privkey" else "verification-key"))
+                    if len(verdicts) == 2 and verdicts["check"] != verdicts["car"]:
+                        ctx.violation("check(verify=True) and check_and_repair(verify=True) disagree on one grid state: %r" % verdicts,
+                                      case, "verify-check-and-repair-disagree")
                     if step == "car":
                         break                        # the repair half has rewritten the shares
             finally:
@@ -933,6 +951,11 @@ PRIVKEY_CORPUS = [
      "order": ["check"], "size": 100},
     {"family": "privkey", "k": 2, "n": 4, "servers": 4, "fmt": "s", "sched": 6, "policy": "fifo", "which": 1, "off": 43,
      "order": ["check", "car"], "size": 100},
+    # the verification key: a client that does not know the public key yet rejects such a share
+    {"family": "privkey", "field": "vkey", "k": 2, "n": 4, "servers": 5, "fmt": "s", "sched": 7, "policy": "fifo", "which": 0,
+     "off": 40, "order": ["check", "car"], "size": 100},
+    {"family": "privkey", "field": "vkey", "k": 2, "n": 4, "servers": 5, "fmt": "m", "sched": 8, "policy": "fifo", "which": 2,
+     "off": 40, "order": ["car"], "size": 100},
 ]
 
 
